@@ -348,6 +348,12 @@ def attr_known_match(case: dict, detail: dict) -> Optional[str]:
     if b[0] == 'prohibited' and d[0] in ('optional', 'required') and b[3] in (None, '##other', 'urn:o') \
             and 'a' in detail['attributes']:
         return KNOWN_ATTR
+    # C14-F2: the derived type prohibits `a` (declared by the base) but keeps a wildcard that admits the name:
+    # a prohibited use is no attribute use at all (XSD structures 3.2.2), so the attribute is validated through
+    # the wildcard (lax: no global declaration -> any value) while the base demands the declared type
+    if d[0] == 'prohibited' and b[0] in ('optional', 'required') and d[3] in ('##any', '##local') \
+            and 'a' in detail['attributes']:
+        return 'C14-F2'
     return None
 
 
